@@ -205,7 +205,7 @@ impl TypedScenario for C10Clock {
     fn budget(&self, tier: Tier) -> usize {
         clock_sweep_len() + match tier {
             Tier::Quick => 3000,
-            Tier::Thorough => 400_000,
+            Tier::Thorough => 2_000_000,
         }
     }
     fn generate(&self, seed: u64, index: usize, _tier: Tier) -> ClockPlan {
@@ -426,7 +426,7 @@ impl TypedScenario for C10Handshake {
     fn budget(&self, tier: Tier) -> usize {
         POLICIES.len() * IDENTS.len() + match tier {
             Tier::Quick => 400,
-            Tier::Thorough => 40_000,
+            Tier::Thorough => 200_000,
         }
     }
     fn generate(&self, seed: u64, index: usize, _tier: Tier) -> HsPlan {
